@@ -209,12 +209,15 @@ func handleLine(cur **Contract, out *[]*Contract, pkgPath, text, line string) er
 	if *cur == nil && (kw == "shared" || kw == "fresh" || kw == "copied" || kw == "rebound" || kw == "derived" || kw == "zero" || kw == "property") {
 		return nil
 	}
-	if kw == "func" {
+	if kw == "func" || kw == "afunc" {
 		name := rest
 		if i := strings.IndexAny(name, " ("); i > 0 {
 			name = name[:i]
 		}
 		c := &Contract{Pkg: pkgPath, Func: name, File: line, Loops: map[int]*LoopSpec{}, Raw: map[string][]string{}}
+		if kw == "afunc" {
+			c.Raw["abstract"] = []string{""}
+		}
 		*out = append(*out, c)
 		*cur = c
 		return nil
